@@ -40,6 +40,14 @@ class Adapter(EnvAdapter):
 
     # ---- configurations -------------------------------------------------------------------
     def configs(self, tier):
+        # time-limit sweep ("for every value passed", C11): a single agent cannot collide, so only the limit ends the episode
+        from harness.envs.base import T_SWEEP_QUICK_FEW, T_SWEEP_THOROUGH_FEW
+
+        ts = T_SWEEP_QUICK_FEW if tier == "quick" else T_SWEEP_THOROUGH_FEW
+        return self._base_configs(tier) + [_c(f"r1c3h1a1_s1q2_t{t}_sweep", 1, 3, 1, 1, 1, 2, t, episodes=1, max_steps=t + 2,
+                                              policies=["deliver"], probe_every=0, props=["C03", "C11"]) for t in ts]
+
+    def _base_configs(self, tier):
         pols = ["carrier", "deliver", "random"]                               # one agent
         polm = ["deliver2", "meet", "carrier", "deliver", "random"]           # several agents
         if tier == "quick":
